@@ -485,6 +485,9 @@ __result = __json.dumps({call_node.as_string()})
         stdout, stderr = process.communicate(timeout=1)
 
     except subprocess.TimeoutExpired:
+        # do not leave the helper process running after the call returns
+        process.kill()
+        process.communicate()
         raise CompilerError(
             f"Timeout during evaluating constexpr function call {call_node.as_string()}",
             call_node,
